@@ -1368,6 +1368,12 @@ def _weighted_quantile(sorted_values, quantiles, weights):
   index_values = np.arange(len(sorted_values))
   quantiles_idx = np.interp(x=quantiles, xp=weighted_quantiles, fp=index_values)
   quantiles_idx = np.rint(quantiles_idx).astype(int)
+  # Values with zero weight (e.g. the appended clip bounds) tie in
+  # weighted_quantiles, so make sure the extreme quantiles are the extreme values.
+  if len(quantiles) and quantiles[0] <= 0.0:
+    quantiles_idx[0] = 0
+  if len(quantiles) and quantiles[-1] >= 1.0:
+    quantiles_idx[-1] = len(sorted_values) - 1
 
   # Replace repeated quantile values with neighbouring values.
   unique_idx, first_use = np.unique(quantiles_idx, return_index=True)
